@@ -302,7 +302,7 @@ def translate(fname, names):
         body = fn.block(node.body)
         sig = " ".join(f"({x} : {COQ_TY[t]})" for x, t in args)
         init = "".join(f"let {v} := {dflt(locs[v])} in " for v in fn.state)
-        parts.append(f"(* {path}: def {name}({', '.join(x for x, _ in args)}), line {node.lineno} *)")
+        parts.append(f"(* {path}: def {name}({', '.join(x for x, _ in args)}) *)")
         parts.append(f"Definition py_{name} {sig} : option {COQ_TY[ret]} :=")
         parts.append(f"  {init}")
         parts.append("  match\n" + textwrap.indent(pretty(f"({body} : {fn.flow_ty()})"), "    ") + f"\n  with FRet r_ => Some r_ | FRaise => None | FNext _ => None end.")
@@ -332,8 +332,10 @@ def pretty(t, width=110):
 def _also_sd():
     """the strategy drivers (coq/theories/PySrcSd.v) are regenerated by the same command"""
     sys.path.insert(0, os.path.dirname(os.path.abspath(__file__)))
-    import py2coq_sd
-    return py2coq_sd.main(sys.argv)
+    import py2coq_sd, py2coq_core
+    a = py2coq_sd.main(sys.argv)
+    b = py2coq_core.main(sys.argv)
+    return max(a, b)
 
 if __name__ == "__main__":
     rc_sd = 0
